@@ -17,11 +17,12 @@ for d in sorted(glob.glob(VERIF + "/seeded/C*-*")):
         if db.get("no_failing_input"):
             cell += " (tie only)"
     rows.setdefault(pid, {})[n] = cell
-lines = ["| property | change 1 | change 2 | change 3 |", "|---|---|---|---|"]
+cols = sorted({n for r in rows.values() for n in r}, key=int)
+lines = ["| property | " + " | ".join("change %s" % n for n in cols) + " |", "|---|" + "---|" * len(cols)]
 tot = det = 0
 for pid in sorted(rows):
     r = rows[pid]
-    lines.append("| %s | %s | %s | %s |" % (pid, r.get("1", "-"), r.get("2", "-"), r.get("3", "-")))
+    lines.append("| %s | " % pid + " | ".join(r.get(n, "-") for n in cols) + " |")
     for c in r.values():
         if c in ("obsolete", "benign"):
             continue
